@@ -62,7 +62,7 @@ ASSUMPTIONS = [
     "if cli.py stops using the builtin open() the simulated disk is bypassed (probe sim_disk_used drops to 0) and the real "
     "temp file with identical content is read instead; the row oracle is unaffected",
 ]
-EXPECTED_PROBES = ("sim_disk_used", "n_eq_0", "n_eq_10", "n_eq_11", "index_eq_n", "index_gt_n", "index_last", "torn_tail",
+EXPECTED_PROBES = ("magic_first_packet", "sim_disk_used", "n_eq_0", "n_eq_10", "n_eq_11", "index_eq_n", "index_gt_n", "index_last", "torn_tail",
                    "short_raw_read", "listing_elided", "listing_full", "repeated_packet", "garbage_tail", "huge_packet", "index_negative_beyond", "index_negative_inside",
                    "parse_with_body_definition", "packet_shorter_than_definition_needs")
 
@@ -114,6 +114,12 @@ def parse_rows(text):
             rows.append(ints)
         elif any(c in _ELLIPSES or c.strip(".\u2026") == "" and len(c) >= 3 for c in cells) and not _LOGLINE.search(line):
             rows.append("...")
+    # an ellipsis ROW stands between data rows; a line with an ellipsis before the first or after the last data row
+    # ("Reading file ...", "done ...") is prose around the table
+    while rows and rows[0] == "...":
+        rows.pop(0)
+    while rows and rows[-1] == "...":
+        rows.pop()
     return rows
 
 
@@ -206,6 +212,27 @@ def run_body(ch, w, out, render):
     return out
 
 
+class _DiskFile(SimRaw):
+    """The simulated disk file as ``open(path, 'rb')`` would return it: besides the simulated reads it has a name, a mode
+    and a descriptor (of the real temporary file with the same content: fstat / mmap see what the reads deliver)."""
+    real_path = None
+    _fd = None
+
+    def fileno(self):
+        if self._fd is None:
+            self._fd = os.open(self.real_path, os.O_RDONLY)
+        return self._fd
+
+    def close(self):
+        if self._fd is not None:
+            try:
+                os.close(self._fd)
+            except OSError:
+                pass
+            self._fd = None
+        super().close()
+
+
 def run(ch, render=False):
     out = Outcome()
     w = World(ch, max_steps=50_000)
@@ -240,6 +267,10 @@ def run(ch, render=False):
         huge = ch.chance(1, 25, "huge")          # some packets with a data field of 32768 bytes or more (length field >= 0x7FFF)
         if huge:
             bufsize, short_mode = 8192, "full"
+    # the group options every command accepts (logging set-up): drawn in the non-sweep runs
+    gopts = [] if sweep else list(ch.weighted([(7, ()), (2, ("-v",)), (1, ("-q",)), (1, ("--log-level", "DEBUG")),
+                                               (1, ("--log-level", "WARNING"))], "group_opts"))
+    magic = None if sweep else (ch.pick(factory.MAGICS, "magic") if ch.chance(1, 12, "magic_first") else None)
 
     # ---- the recorder writes n packets with unique counters -----------------------------------
     c0 = (hdr_seed * 37) % 16384 if hdr_seed else 500
@@ -263,6 +294,11 @@ def run(ch, render=False):
         elif repeat == "some_repeats" and j and ch.chance(1, 2, "rep"):
             pkts[j] = pkts[ch.draw(j, "rep_of")]
             w.probe("repeated_packet")
+    if magic is not None and pkts:
+        # the first packet's header values spell a file-format magic number (gzip, zip, a byte-order mark ...): a legal
+        # packet file that content sniffing would mistake for something else. Its length field is untouched.
+        pkts[0] = (magic + pkts[0][len(magic):4])[:4] + pkts[0][4:]
+        w.probe("magic_first_packet")
     parts = []
     for p in pkts:
         if k:
@@ -327,13 +363,15 @@ def run(ch, render=False):
         if isinstance(file, (str, bytes, os.PathLike)) and os.fspath(file) == path and "b" in mode and "r" in mode:
             w.probe("sim_disk_used")
             w.ev("disk", "open")
-            raw = SimRaw(w, content, short=short)
+            raw = _DiskFile(w, content, short=short)
+            raw.name, raw.mode = file, "rb"                  # what every file opened by path has
+            raw.real_path = path
             raw.eof_budget = 8 + len(content) // 7        # the CLI consumes the whole file inside one call: polls at end-of-file
             raws.append(raw)                                 # are bounded by the number of packets the content can hold
             return io.BufferedReader(raw, buffer_size=bufsize)
         return open(file, mode, *a, **kw)
 
-    args = ["describe-packets", path] if cmd == "describe" else ["parse", path, XTCE_PATH]
+    args = gopts + (["describe-packets", path] if cmd == "describe" else ["parse", path, XTCE_PATH])
     if index is not None:
         args += ["--packet", str(index)]
     if k:
@@ -350,6 +388,15 @@ def run(ch, render=False):
     had_open = "open" in _cli.__dict__
     saved_open = _cli.__dict__.get("open")
     _cli.open = sim_open
+    # every invocation starts with the root logger of a fresh process: logging.basicConfig() in the command group only
+    # takes effect when the root logger has no handlers yet, so without this the first invocation's options would decide
+    # for every later one in this process
+    root = logging.getLogger()
+    saved_root = (list(root.handlers), root.level, logging.root.manager.disable)
+    for h_ in list(root.handlers):
+        root.removeHandler(h_)
+    root.setLevel(logging.WARNING)
+    logging.disable(logging.NOTSET)
     try:
         with warnings.catch_warnings():
             warnings.simplefilter("ignore")
@@ -358,6 +405,17 @@ def run(ch, render=False):
             except (LivenessViolation, StepBudgetExceeded) as e:
                 err = (type(e).__name__, str(e))
     finally:
+        for h_ in list(root.handlers):
+            root.removeHandler(h_)
+        for h_ in saved_root[0]:
+            root.addHandler(h_)
+        root.setLevel(saved_root[1])
+        logging.disable(saved_root[2])
+        for r_ in raws:
+            try:
+                r_.close()
+            except Exception:
+                pass
         if had_open:
             _cli.open = saved_open
         else:
@@ -368,7 +426,7 @@ def run(ch, render=False):
 
     # ---- oracle ------------------------------------------------------------------------------
     desc = (f"cmd={cmd} n={n} complete={m} index={index} k={k} torn={'yes' if torn else 'no'} file_bytes={len(content)} "
-            f"bufsize={bufsize} short={short_mode}")
+            f"bufsize={bufsize} short={short_mode} options={' '.join(gopts) or '-'}")
     text = ""
     if err is not None:
         out.fail("does_not_terminate", f"{err[1]} ({desc})", f"{cmd}|does_not_terminate")
@@ -391,9 +449,11 @@ def run(ch, render=False):
                 exc.sim_injected = True       # (constructed here only to carry the message; the traceback text is the CLI's)
         if exc is not None and not isinstance(exc, SystemExit):
             out.fail("traceback", f"command ended in {type(exc).__name__}: {exc} ({desc})", f"{cmd}|traceback|{type(exc).__name__}")
-        elif result.exit_code != 0 and not oor_case:
-            # the statement fixes no exit status for the out-of-range answer; a listing or a valid index that ends with a
-            # failure status has not "shown" anything reliably
+        elif result.exit_code != 0 and not oor_case and content == full:
+            # the statement fixes no exit status for the out-of-range answer, nor for a file with a torn or padded tail
+            # (tools commonly list what is there and still exit non-zero for damaged input): what is printed is judged
+            # below in every case. For an intact file, a listing or a valid index that ends with a failure status has not
+            # "shown" anything reliably
             out.fail("nonzero_exit", f"exit code {result.exit_code}; output tail: {text_all[-200:]!r} ({desc})", f"{cmd}|exit")
         elif cmd == "describe":
             rows = parse_rows(text)
